@@ -486,10 +486,23 @@ func q2Handoff(p *Prog, o *obls, cons *ssa.Function, qs queueSpec) {
 			}
 		}
 	}
+	// the writer must be the one looked up for this packet, not a value carried over from an earlier iteration
+	for _, w := range writes {
+		for h, body := range loops {
+			if !body[w.Block()] {
+				continue
+			}
+			for _, in := range h.Instrs {
+				if phi, ok := in.(*ssa.Phi); ok && types.Identical(phi.Type(), p.rootNamed("RTPWriter")) && viaPhisOnly(p, w.Call.Value, phi) {
+					bad = append(bad, fmt.Sprintf("the writer used at %s can be a value carried over from a previous loop iteration (%s) instead of the writer currently registered for the packet's stream", p.instrPos(w), phi.Comment))
+				}
+			}
+		}
+	}
 	if len(bad) > 0 {
 		o.bad("Q2", key, p.Pos(cons.Pos()), strings.Join(dedupe(bad), "; "))
 	} else {
-		o.ok("Q2", key, p.Pos(cons.Pos()), fmt.Sprintf("%d write site(s): at most one write per dequeued packet, none skipped except on the logged no-writer branch", len(writes)))
+		o.ok("Q2", key, p.Pos(cons.Pos()), fmt.Sprintf("%d write site(s): at most one write per dequeued packet, none skipped except on the logged no-writer branch, writer looked up per packet", len(writes)))
 	}
 }
 
